@@ -30,6 +30,14 @@ def export_enum_graph(work, rep, label):
     return _table(work, out, "e" + label)
 
 
+def export_regex_graph(work, rep, label, maxtoken=6):
+    """Reference automaton of a regex type's token (spec/RegexText.tla explored by RegexRef.tla)."""
+    out = work.path("rref-%s.txt" % label)
+    r = vlib.tlc(work, "RegexRef", "RegexRef.cfg", consts={"Alphabet": "0..255", "MaxToken": str(maxtoken)}, to_file=out, timeout=3000, heap="12g")
+    rep.add_tlc(r, "RegexRef (token length <= %d)" % maxtoken)
+    return _table(work, out, "r" + label)
+
+
 def _table(work, out, label):
     ids, verdict, delta = {}, [], []
 
